@@ -394,7 +394,8 @@ PROPS["C13"] = mux_prop(
 
 PROPS["C08"] = mux_prop(
     "C08", pick("c08_", extra=["c15_teardown", "c02_s_sink_pending", "c02_s_sink_error", "c06_local_drop"]),
-    extra_unwindset=[(r"schedule_ping_task", 3), (r"wind_down", 4)],
+    thorough_only={"c08_wind_down_peer_ended", "c08_wind_down_local_drop", "c08_wind_down_peer_ended_inflight", "c08_wind_down_local_drop_inflight", "c08_keepalive_silent_transport"},
+    extra_unwindset=[(r"schedule_ping_task", 3), (r"wind_down", 4), (r"as bytes::Buf>::copy_to_slice", 3)],
     note="wind_down from a table with one flow of every kind, queued frames and a frame still in flight; the transport's behaviour chosen by the solver",
     bounds=dict(flows="one Established (one frame delivered, symbolic credit), one Requested, one BindRequested", outbound="2 queued frames", in_flight="0 or 1 Push still in the source",
                 transport="sink ready or failing, close Ok or failing, source ending with None or with an error; separately: keepalive (1 s, 1 s) on a source that stays silent for ever"),
